@@ -7,6 +7,7 @@ package vrt
 import (
 	"fmt"
 	"os"
+	"runtime"
 	"strings"
 )
 
@@ -31,7 +32,9 @@ type Failure struct {
 }
 
 type Ctx struct {
-	tmpDirs []string
+	tmpDirs  []string
+	rootDirs []string
+	Skipped  string
 	Params  map[string]int
 	Draws   []Draw
 	pos     int
@@ -47,6 +50,11 @@ type stop struct{}
 // Run executes harness h natively with the given draws and reports how it ended.
 func Run(h func(*Ctx), params map[string]int, draws []Draw) (c *Ctx) {
 	c = &Ctx{Params: params, Draws: draws}
+	if childMode() {
+		// strace counts injected system calls per thread: keep the whole
+		// harness on one
+		runtime.LockOSThread()
+	}
 	defer func() {
 		for _, d := range c.tmpDirs {
 			os.RemoveAll(d)
@@ -267,11 +275,23 @@ func (c *Ctx) IteInt(cond bool, a, b int) int {
 // temporary directory removed when the run ends; under the symbolic executor
 // a directory of the file-system model.
 func (c *Ctx) TempDir() string {
-	d, err := os.MkdirTemp("", "vrt-")
-	if err != nil {
-		panic(err)
+	var d string
+	if childMode() {
+		// a crash child works in its parent's directories
+		all := strings.Split(os.Getenv("VRT_CHILD_DIRS"), ",")
+		if len(c.rootDirs) >= len(all) {
+			panic("crash child: more temporary directories than its parent")
+		}
+		d = all[len(c.rootDirs)]
+	} else {
+		var err error
+		d, err = os.MkdirTemp("", "vrt-")
+		if err != nil {
+			panic(err)
+		}
+		c.tmpDirs = append(c.tmpDirs, d)
 	}
-	c.tmpDirs = append(c.tmpDirs, d)
+	c.rootDirs = append(c.rootDirs, d)
 	// nested, so that lexical path traversal by a short key stays inside d
 	n := d + "/a/b/c"
 	if err := os.MkdirAll(n, 0700); err != nil {
